@@ -316,8 +316,73 @@ func testdataDirs(repo string) []string {
 	return out
 }
 
+// copyTree copies src to dst (regular files, directories, symlinks as symlinks), leaving out the files listed as
+// emptied. The harness never hands a directory of the repository itself to an extractor: some extractors open
+// their input read-write (containerd: bolt.Open without ReadOnly initialises an empty file to 16 KiB).
+func (h *harvester) copyTree(src, dst string) error {
+	return filepath.WalkDir(src, func(p string, d fs.DirEntry, err error) error {
+		if err != nil {
+			return nil
+		}
+		rel, _ := filepath.Rel(src, p)
+		target := filepath.Join(dst, rel)
+		if d.IsDir() {
+			return os.MkdirAll(target, 0o755)
+		}
+		if rr, err := filepath.Rel(h.repo, p); err == nil && h.emptied[filepath.ToSlash(rr)] {
+			return nil
+		}
+		if d.Type()&fs.ModeSymlink != 0 {
+			if l, err := os.Readlink(p); err == nil {
+				os.Symlink(l, target)
+			}
+			return nil
+		}
+		if !d.Type().IsRegular() {
+			return nil
+		}
+		b, err := os.ReadFile(p)
+		if err != nil {
+			return nil
+		}
+		return os.WriteFile(target, b, 0o644)
+	})
+}
+
+// runCopy scans a private copy of root (same relative layout below it) and deletes the copy afterwards;
+// packages are reported with the original root.
+func (h *harvester) runCopy(root string, exts []filesystem.Extractor, timeout time.Duration) {
+	tmp, err := os.MkdirTemp("", "c14fixtures")
+	if err != nil {
+		panic(err)
+	}
+	defer os.RemoveAll(tmp)
+	// keep the path below the repository (production-like parent directories for extractors that look at them)
+	sub := "root"
+	if rel, err := filepath.Rel(h.repo, root); err == nil && !strings.HasPrefix(rel, "..") {
+		sub = rel
+	}
+	scan := filepath.Join(tmp, sub)
+	if err := os.MkdirAll(scan, 0o755); err != nil {
+		panic(err)
+	}
+	if err := h.copyTree(root, scan); err != nil {
+		h.panics = append(h.panics, panicEvent{What: "copy fixtures", Root: root, Msg: err.Error()})
+		return
+	}
+	h.runAt(root, scan, exts, timeout)
+}
+
+// run scans root in place: only for directories the harness created itself.
 func (h *harvester) run(root string, exts []filesystem.Extractor, timeout time.Duration) {
-	h.curRoot = root
+	if rel, err := filepath.Rel(h.repo, root); err == nil && !strings.HasPrefix(rel, "..") {
+		panic("harness bug: refusing to scan inside the repository: " + root)
+	}
+	h.runAt(root, root, exts, timeout)
+}
+
+func (h *harvester) runAt(reportRoot, root string, exts []filesystem.Extractor, timeout time.Duration) {
+	h.curRoot = reportRoot
 	ctx, cancel := context.WithTimeout(context.Background(), timeout)
 	defer cancel()
 	func() {
@@ -905,7 +970,7 @@ func main() {
 			}
 			ws = append(ws, &wrapExt{inner: e, always: own || *cross, own: own || !*cross, h: h})
 		}
-		h.run(d, ws, 120*time.Second)
+		h.runCopy(d, ws, 120*time.Second)
 	}
 	for _, d := range strings.Split(*extra, ",") {
 		if d = strings.TrimSpace(d); d == "" {
@@ -918,7 +983,7 @@ func main() {
 		for _, e := range exts {
 			ws = append(ws, &wrapExt{inner: e, always: true, own: false, h: h})
 		}
-		h.run(d, ws, 300*time.Second)
+		h.runCopy(d, ws, 300*time.Second)
 	}
 	harvestSecs := time.Since(t0).Seconds()
 	fixtureGroups := len(h.groups)
